@@ -305,9 +305,9 @@ func C09(c *core.Ctx) {
 	work := c.WorkDir()
 	defer os.RemoveAll(work)
 	cfgs := []crashConfig{
-		{"base+deletes", 0, "deletes", false, 4, 60},
-		{"aes128+plain", 3, "plain", false, 4, 60},
-		{"snappy+bigthreshold", 1, "plain", false, 4, 60},
+		{"base+deletes", 0, "deletes", false, 4, 60, 0},
+		{"aes128+plain", 3, "plain", false, 4, 60, 0},
+		{"snappy+bigthreshold", 1, "plain", false, 4, 60, 0},
 	}
 	if !c.Thorough() {
 		cfgs = cfgs[:2]
